@@ -17,10 +17,13 @@ from fractions import Fraction as F
 OPT_OK = ['cvt:bigM=100000', 'cvt:bigm=1e4', 'acc:abs=0', 'acc:or=0', 'acc:and=1', 'cvt:pre:all=0', 'tech:timing=0',
           'cvt:names=0', 'cvt:names=2', 'cvt:names=3', 'obj:no=1', 'objno=0', 'sol:chk:mode=0', 'cvt:sos=0',
           'acc:indle=0', 'acc:indeq=0', 'acc:indge=0', 'cvt:plapprox:reltol=0.1', 'tech:debug=0', 'cvt:mip:eps=1e-4',
-          'sol:chk:feastol=1e-5', 'cvt:quadobj=0', 'cvt:quadcon=0', 'acc:max=0', 'acc:min=0', 'cvt:pre:eqresult=0']
+          'sol:chk:feastol=1e-5', 'cvt:quadobj=0', 'cvt:quadcon=0', 'acc:max=0', 'acc:min=0', 'cvt:pre:eqresult=0',
+          # round 3 (coverage): timing / time report in the message and as suffixes / version / value queries / rounding / multi-objective
+          'tech:timing=1', 'tech:reporttimes=1', 'version', 'cvt:bigM=?', 'wantsol=?', 'mip:round=1', 'mip:round=7', 'alg:relax=1',
+          'obj:multi=1', 'acc:indle=1', 'acc:indge=1', 'acc:indeq=1', 'sol:chk:mode=1023']
 OPT_BAD = ['foo=1', 'frobnicate', 'acc:nosuchcon=1', 'cvt:bigM=abc', 'obj:no=x', 'cvt:names=yes', 'sol:chk:fail=1',
            '=3', 'tech:timing=1.5', 'tech:optionfile=/nonexistent/opts']
-OPT_INVALID = ['tech:timing=9', 'tech:timing=-1', 'wantsol=16', 'wantsol=-1', 'objno=-1', 'obj:multi=5']
+OPT_INVALID = ['tech:timing=9', 'tech:timing=2', 'obj:multi=2', 'tech:timing=-1', 'wantsol=16', 'wantsol=-1', 'objno=-1', 'obj:multi=5']
 WANTSOL = [0, 1, 2, 3, 4, 5, 8, 9, 15]
 
 UNSUPPORTED_OPS = ['rem', 'atan2', 'intdiv', 'precision', 'round', 'trunc', 'less']
@@ -127,12 +130,32 @@ class G:
             else:
                 m.con(lo, lo, self.lin(m))
 
+    def add_suffixes(self, m):
+        """input suffixes of every kind (var / con / obj / problem, int / float); none of them is an output suffix"""
+        r = self.r
+        if not r.chance(1, 3):
+            return
+        if r.chance(1, 2):
+            m.suffixes.append({'name': 'zork', 'kind': 0, 'float': False, 'vals': {0: r.rint(1, 5)}})
+        if m.cons and r.chance(1, 2):
+            m.suffixes.append({'name': 'bar', 'kind': 1, 'float': True, 'vals': {0: F(r.rint(1, 9), 2)}})
+        if m.objs and r.chance(2, 3):
+            m.suffixes.append({'name': 'objpriority', 'kind': 2, 'float': False, 'vals': {i: r.rint(1, 3) for i in range(len(m.objs))}})
+            if r.chance(1, 2):
+                m.suffixes.append({'name': 'objweight', 'kind': 2, 'float': True, 'vals': {i: F(r.rint(1, 4)) for i in range(len(m.objs))}})
+            if r.chance(1, 3):
+                m.suffixes.append({'name': 'objabstol', 'kind': 2, 'float': True, 'vals': {0: F(1, 2)}})
+                m.suffixes.append({'name': 'objreltol', 'kind': 2, 'float': True, 'vals': {0: F(1, 4)}})
+        if r.chance(1, 3):
+            m.suffixes.append({'name': 'prob1', 'kind': 3, 'float': False, 'vals': {0: 7}})
+
     def model_lp(self):
         m = Model()
         self.base_vars(m)
         self.add_lin_cons(m, self.r.rint(0, 4))
-        for _ in range(self.r.choice([0, 1, 1, 1, 2])):
+        for _ in range(self.r.choice([0, 1, 1, 1, 2, 3])):
             m.obj(self.r.choice(['min', 'max']), self.lin(m))
+        self.add_suffixes(m)
         return m
 
     def model_mix(self, ops=None, bounded=True):
